@@ -109,6 +109,7 @@ def build(tier, seed):
     if tier == "quick":
         entries = [e for e in entries if not ("marker" in e["tags"] and "sbl" in e["tags"])]
         entries = [e for e in entries if e["tags"] & {"tail", "run", "ref", "refsel", "seq", "opt", "move", "G", "nest", "size", "bits"}]
+        entries = [e for e in entries if not e["key"].startswith("g_bridge")]
     obs = []
     a = "both reject => PacketError, unpacking phase, e.packet set, innermost entry = failing field (or the generated run containing " \
         "it) with the offset where it begins, one entry per enclosing Ref/Sequence field with the offset where it began, str(e) works; " \
